@@ -351,6 +351,18 @@ def block_size_field(ctx, prog):
     if acc_l is None or len(flags) != 1:
         ctx.ob(R, "parse_block_size_from_bytes: accumulator and in-range flag identified", False, "accumulator %s, flags %s" % (acc_l, flags), f.loc())
         return
+    # the in-range flag: true at the start, false exactly where the checked accumulation yielded None, nothing else
+    fl = flags[0]
+    fdefs = []
+    for (b, _i, k, x) in f.defs.get(fl, []):
+        v = const_value(strip(sy.rvalue(x))) if k == "rv" else None
+        # (the None arm of the accumulation's Option - spelled `checked_mul(..).and_then(..)` or as a `match` into a local - not the iterator's)
+        none_arm = any(not (strip(strip(c[0])[1])[0] == "call" and strip(strip(c[0])[1])[1].endswith("::next")) for c in path_conds(f, sy, b)
+                       if strip(c[0])[0] == "discr" and ((c[1] == "in" and list(c[2]) == [0]) or (c[1] == "notin" and list(c[2]) == [1])))
+        fdefs.append((v, none_arm))
+    okf = sorted(fdefs, key=str) == sorted([(1, False), (0, True)], key=str)
+    ctx.ob(R, "parse_block_size_from_bytes: the in-range flag starts true and is cleared exactly on the overflow (None) arm of the checked accumulation", okf,
+           "definitions (value, on the None arm): %s" % fdefs, f.loc())
     ACC = r"local:%s_%d" % (_re.escape(f.locals[acc_l]["name"]), acc_l)
     FLAG = r"local:%s_%d" % (_re.escape(f.locals[flags[0]]["name"]), flags[0])
     INRANGE_T = r"^%s is True$" % FLAG
